@@ -166,6 +166,28 @@ func main() {
 	}
 	wg.Wait()
 	run.Cov["vector_byte_mutations"] = byteMut
+	// runs: 1..40 leading spaces / tabs / newlines / C0 controls before each vector (browsers strip them), scheme
+	// names preceded or followed by long runs, and very long relative references with a colon far to the right
+	padded := 0
+	for _, v := range vectors {
+		for _, pad := range []string{" ", "\t", "\n", "\r", "\x01", "\x0f", "\x1f", "\x00"} {
+			for k := 1; k <= 40; k++ {
+				checkOne(strings.Repeat(pad, k)+v, k <= 3)
+				padded++
+			}
+		}
+	}
+	for k := 0; k <= 300; k++ {
+		for _, sch := range []string{"javascript", "http", "data"} {
+			checkOne(strings.Repeat("a", k)+sch+":x", false)
+			checkOne(sch+strings.Repeat("a", k)+":x", false)
+			checkOne(strings.Repeat("/", k)+sch+":x", false)
+			checkOne(strings.Repeat("x", k)+"/"+sch+":x", false)
+			checkOne(sch+":"+strings.Repeat("x", k), false)
+			padded += 5
+		}
+	}
+	run.Cov["padded_and_long_inputs"] = padded
 
 	run.Cov["token_alphabet"] = len(tokens)
 	run.Cov["token_max_len"] = tokLen
